@@ -186,6 +186,8 @@ def scrape_consts(report):
         return [a or b for a, b in re.findall(r'(?:\b(\w+)\(self\);|self\.(\w+)\(\);)', body)]
     vals["PASS_ORDER"] = calls("tokinize")
     vals["BASIC_PASS_ORDER"] = calls("basic_tokinize")
+    m = re.search(r'pub fn token_infos\(.*?\) -> Vec<Rc<TokenInfo>> \{(.*?)\n    \}', t, re.S)
+    vals["PATTERN_PASS_ORDER"] = re.findall(r'\b(\w+)\(&mut tokinizer\);', m.group(1)) if m else []
     t = src("src/tokinizer/rule_tokinizer/mod.rs")
     vals["RULE_REGISTRY"] = re.findall(r'm\.insert\("(\w+)"\.to_string\(\),\s*(\w+)\s+as ExpressionFunc\)', t)
     t = src("src/syntax/binary.rs")
@@ -227,6 +229,7 @@ def gen_rust_consts(vals):
     L.append("(* structure of the pipeline (pinned in Proofs/TiePins.v) *)")
     L.append("Definition PASS_ORDER : list str := %s." % clist(cstr(x) for x in vals["PASS_ORDER"]))
     L.append("Definition BASIC_PASS_ORDER : list str := %s." % clist(cstr(x) for x in vals["BASIC_PASS_ORDER"]))
+    L.append("Definition PATTERN_PASS_ORDER : list str := %s." % clist(cstr(x) for x in vals["PATTERN_PASS_ORDER"]))
     L.append("Definition RULE_REGISTRY : list (str * str) := %s." % clist("(%s, %s)" % (cstr(a), cstr(b)) for a, b in vals["RULE_REGISTRY"]))
     L.append("Definition PARSE_LEVELS : list (str * str * list N) := %s." %
              clist("(%s, %s, %s)" % (cstr(a), cstr(b), clist(cN(ord(o)) for o in ops)) for a, b, ops in vals["PARSE_LEVELS"]))
